@@ -580,8 +580,68 @@ def type01_cases(draw):
     return {'triples': triples[:30], 'fn': draw(FN_NAMES)}
 
 
+# ---------------------------------------------------------------------------------------------
+# Histories: queries interleaved with add() - the index must be right after every step, not only when it is
+# queried once at the end (a value cached by a query must not survive a later add)
+# ---------------------------------------------------------------------------------------------
+def check_type01_incremental(case, cc):
+    from TotalDepth.LIS.core import Rle as LisRle
+    triples = [tuple(t) for t in case['triples']]
+    r = LisRle.RLEType01(b'FEET')
+    model = []
+    cc.nt(len(triples) >= 3)
+    cc.cls('incremental:type01')
+    cc.sample({'triples': triples[:6]})
+    for k, (p, f, x) in enumerate(triples):
+        r.add(p, f, x)
+        model.append((p, f, x))
+        total = ref.total_frames(model)
+        got = r.totalFrames()
+        if got != total:
+            cc.dev('type01-totalFrames==sum', 'totalFrames-after-interleaved-add', 'after add #%d (queried after every add): totalFrames()=%r expected %d' % (k + 1, got, total))
+            return
+        if r.num_values() != len(model):
+            cc.dev('type01-count', 'num_values-after-interleaved-add', 'after add #%d: num_values()=%r expected %d' % (k + 1, r.num_values(), len(model)))
+            return
+        for fnum in sorted(set([0, total - 1, total - f, max(0, total - f - 1)])):
+            exp = ref.frame_locate(model, fnum)
+            if exp is None:
+                continue
+            if tuple(r.tellLrForFrame(fnum)) != tuple(exp):
+                cc.dev('type01-tellLrForFrame==model', 'locate-after-interleaved-add', 'after add #%d: tellLrForFrame(%d)=%r expected %r' % (k + 1, fnum, r.tellLrForFrame(fnum), exp))
+                return
+        try:
+            r.tellLrForFrame(total)
+            cc.dev('type01-tellLrForFrame==model', 'no-IndexError-past-end', 'after add #%d: tellLrForFrame(%d) did not raise' % (k + 1, total))
+            return
+        except IndexError:
+            pass
+
+
+def check_seq_incremental(case, cc):
+    from TotalDepth.common import Rle
+    seq = case['seq']
+    if any(isinstance(v, float) for v in seq):
+        return
+    r = Rle.RLE()
+    cc.nt(len(seq) >= 3)
+    cc.cls('incremental:int-seq')
+    for k, v in enumerate(seq):
+        r.add(v)
+        want = seq[:k + 1]
+        got = (r.num_values(), r.first(), r.last(), r.value(k), r.value(-1))
+        exp = (len(want), want[0], want[-1], want[k], want[-1])
+        if got != exp:
+            cc.dev('rle-after-every-add', 'state-after-interleaved-add', 'after add #%d of %r: (count, first, last, value(k), value(-1))=%r expected %r' % (k + 1, seq[:12], got, exp))
+            return
+    if list(r.values()) != list(seq):
+        cc.dev('rle-values()==list', 'values-after-interleaved-add', 'values() differs after interleaved queries')
+
+
 def parts(tier):
     return [
+        HypPart('type01-incremental', type01_cases(), check_type01_incremental, 800, 16000),
+        HypPart('int-seq-incremental', int_seqs(), check_seq_incremental, 800, 16000),
         EnumPart('int-exhaustive', run_int_enum, check_seq),
         EnumPart('type01-exhaustive', run_type01_enum, check_type01),
         HypPart('int-seq', int_seqs(), check_seq, 4000, 70000),
